@@ -59,8 +59,8 @@ SCENARIOS = {
         "counts": ["C02", "C01"],
     },
     "C03": {
-        "modules": ["C03", "Reachable", "C03Bq", "C03Sorted", "Checkers"],
-        "theorems": ["C03_reported_sorted", "C03_reported_sorted_scores", "C03_by_item_eq_by_vector_bq", "C03_by_item_eq_by_vector_reachable", "C03_total_reachable", "C03_filter_exact_reachable", "C03_monotone_reachable", "C03_wellformed", "C03_total", "C03_filter_exact", "C03_default_budget", "C03_by_item_absent",
+        "modules": ["C03", "Reachable", "C03Bq", "C03Sorted", "Checkers", "C03History"],
+        "theorems": ["C03_history_wellformed", "C03_history_filter_exact", "C03_history_monotone", "C03_history_by_item", "C03_reported_sorted", "C03_reported_sorted_scores", "C03_by_item_eq_by_vector_bq", "C03_by_item_eq_by_vector_reachable", "C03_total_reachable", "C03_filter_exact_reachable", "C03_monotone_reachable", "C03_wellformed", "C03_total", "C03_filter_exact", "C03_default_budget", "C03_by_item_absent",
                      "C03_by_item_present", "C03_by_item_eq_by_vector", "C03_prefix", "C03_monotone", "C03_budget_le"],
         "quick": [hist("c03", 100, extra=T1)],
         "thorough": [hist("c03", 400, "thorough", extra=T1), hist("c03", 80, "thorough")],
@@ -154,8 +154,8 @@ SCENARIOS = {
                         "proved: progress when the batch exceeds the capacity, the livelock fixed point otherwise; observed: poll-limit hang detection"],
     },
     "C15": {
-        "modules": ["C15", "C15Build", "Unconditional"],
-        "theorems": ["C15_capacity_all_histories", "C15_root_count", "C15_single", "C15_capacity", "C15_requested", "C15_auto", "C15_auto_cases", "C15_cap"],
+        "modules": ["C15", "C15Build", "Unconditional", "C15History"],
+        "theorems": ["C15_history", "C15_history_search_nonempty", "C15_history_capacity", "C15_history_single", "C15_capacity_all_histories", "C15_root_count", "C15_single", "C15_capacity", "C15_requested", "C15_auto", "C15_auto_cases", "C15_cap"],
         "quick": [hist("c15", 200, extra=T1), {"name": "faults:sweep", "args": ["faults", "--seed", "{seed}", "--part", "sweep"]}],
         "thorough": [hist("c15", 600, "thorough", extra=T1), hist("c15", 120, "thorough")],
         "counts": ["C15", "C10"],
